@@ -184,7 +184,25 @@ func TestBoundaries(t *testing.T) {
 			check(t, "boundary-int", p)
 		}
 	}
-	rec.Exhaustive(fmt.Sprintf("boundary grid: %d programs over 14 lengths x 7 text-carrying types x {event,context,array,dict,fields,key,message}, 18 slice types x counts, 21 integer boundaries +-2 x 10 widths x entry points", n))
+	// every special float, in both widths, through every entry point that carries a float
+	f64s := []float64{0, math.Copysign(0, -1), 1, -1, 0.5, math.NaN(), math.Inf(1), math.Inf(-1), math.MaxFloat64, -math.MaxFloat64, math.SmallestNonzeroFloat64, math.MaxFloat32, -math.MaxFloat32, math.SmallestNonzeroFloat32, 65504, 65520, 5.960464477539063e-08, 1e-7, 1e21, 16777217, 3.4028235677973366e38, math.Float64frombits(0x7ff8000000000001), math.Float64frombits(0xfff8000000000000)}
+	for _, f := range f64s {
+		for _, prec := range []int{-1, 0, 3} {
+			b64, b32 := math.Float64bits(f), uint64(math.Float32bits(float32(f)))
+			ops := []lp.Op{lp.KV("f64", lp.Val{T: "float64", U: b64}), lp.KV("f32", lp.Val{T: "float32", U: b32}),
+				lp.KV("fs64", lp.Val{T: "floats64", L: []lp.Val{{U: b64}, {U: math.Float64bits(1.5)}, {U: b64}}}), lp.KV("fs32", lp.Val{T: "floats32", L: []lp.Val{{U: b32}, {U: uint64(math.Float32bits(1.5))}, {U: b32}}}),
+				lp.KV("a", lp.Val{T: "arr", L: []lp.Val{{T: "float64", U: b64}, {T: "float32", U: b32}}}),
+				lp.KV("d", lp.Val{T: "dict", Ops: []lp.Op{lp.KV("f64", lp.Val{T: "float64", U: b64}), lp.KV("f32", lp.Val{T: "float32", U: b32})}}),
+				lp.Op{V: lp.Val{T: "fieldsmap", Ops: []lp.Op{lp.KV("m64", lp.Val{T: "float64", U: b64}), lp.KV("m32", lp.Val{T: "float32", U: b32}), lp.KV("p64", lp.Val{T: "float64", U: b64, Ptr: true}), lp.KV("p32", lp.Val{T: "float32", U: b32, Ptr: true}),
+					lp.KV("ms64", lp.Val{T: "floats64", L: []lp.Val{{U: b64}}}), lp.KV("ms32", lp.Val{T: "floats32", L: []lp.Val{{U: b32}}})}}}}
+			s2 := set
+			s2.FloatPrec = prec
+			p := lp.P(s2, []lp.Step{lp.With(lp.KV("c64", lp.Val{T: "float64", U: b64}), lp.KV("c32", lp.Val{T: "float32", U: b32}))}, lp.Ev(ops...))
+			n++
+			check(t, "boundary-float", p)
+		}
+	}
+	rec.Exhaustive(fmt.Sprintf("boundary grid: %d programs over 14 lengths x 7 text-carrying types x {event,context,array,dict,fields,key,message}, 18 slice types x counts, 21 integer boundaries +-2 x 10 widths x entry points, 23 special floats x {float64,float32} x {event,context,slice,array,dict,fields,pointer} x 3 precisions", n))
 }
 
 func clampSec(x int64) int64 {
